@@ -79,6 +79,7 @@ class Sched:
         self.tasks = []
         self.trace = []           # (n_options, chosen)
         self.steps = 0
+        self.max_instant = 0
         self.handoffs = 0
         self.max_steps = max_steps
         self.escaped = []         # (task name, exception repr, traceback)
@@ -233,6 +234,17 @@ class Sched:
         self.steps += 1
         if self.steps > self.max_steps:
             raise HarnessError('step budget exhausted (livelock?)')
+        # steps taken at one and the same virtual instant
+        if self.now != getattr(self, '_inst_t', None):
+            self._inst_t, self._inst_n = self.now, 0
+        self._inst_n += 1
+        if self._inst_n > self.max_instant:
+            self.max_instant = self._inst_n
+        lim = getattr(self, 'instant_budget', None)
+        if lim is not None and self._inst_n > lim:
+            raise HarnessError('step budget exhausted (livelock?): %d steps '
+                               'while the virtual clock stands at %r' % (
+                                   self._inst_n, self.now))
         i = self.choose(len(self.ready))
         t = self.ready.pop(i)
         BUSY['t'] = _time.monotonic()
